@@ -27,7 +27,7 @@ impl Typer {
     #[verifier::external_body] pub fn push_constraint(&mut self, c: Constraint) ensures final(self).constraints() == old(self).constraints().push(c), final(self).recorded() == old(self).recorded().insert(c) { unimplemented!() }
     #[verifier::external_body]
     pub fn infer_expr(&mut self, genv: &PackageTypeEnv, local_env: &mut LocalTypeEnv, diagnostics: &mut Diagnostics, e: ExprId) -> (r: Expr)
-        ensures inferred(e, r), old(self).recorded().subset_of(final(self).recorded()),
+        ensures inferred(e, r), elaborated(e, r), old(self).recorded().subset_of(final(self).recorded()),
     { unimplemented!() }
     #[verifier::external_body] pub fn fresh_ty_var(&mut self) -> (r: Ty) ensures final(self).constraints() == old(self).constraints(), final(self).recorded() == old(self).recorded() { unimplemented!() }
     #[verifier::external_body] pub fn error_expr(&mut self, astptr: Option<MySyntaxNodePtr>) -> (r: Expr) ensures final(self).constraints() == old(self).constraints(), final(self).recorded() == old(self).recorded(), !(r is ECall) { unimplemented!() }
@@ -75,10 +75,13 @@ pub fn lookup_function_type_by_hint(genv: &PackageTypeEnv, hint: &str) -> (r: Op
 impl Typer {
     #[verifier::external_body]
     pub fn check_expr(&mut self, genv: &PackageTypeEnv, local_env: &mut LocalTypeEnv, diagnostics: &mut Diagnostics, e: ExprId, expected: &Ty) -> (r: Expr)
-        ensures checked_as(e, *expected, r), old(self).recorded().subset_of(final(self).recorded()),
+        ensures checked_as(e, *expected, r), elaborated(e, r), old(self).recorded().subset_of(final(self).recorded()),
     { unimplemented!() }
     #[verifier::external_body] pub fn inst_ty(&mut self, ty: &Ty) -> (r: Ty) ensures is_inst(*ty, r) { unimplemented!() }
 }
+// e was elaborated once (in checking mode against SOME expected type, or in inference mode): which mode is used decides how much is accepted
+// (literal typing, closure parameters, dyn coercion), not soundness — the equation of the function types is what ties the argument to its parameter
+pub open spec fn elaborated(e: ExprId, r: Expr) -> bool { inferred(e, r) || exists|t: Ty| #[trigger] checked_as(e, t, r) }
 pub open spec fn named_args_ok(genv: PackageTypeEnv, hint: Seq<char>, args: Seq<ExprId>, r: Option<(Ty, Vec<Expr>, Vec<Ty>)>) -> bool {
     match r {
         None => fn_type_of(genv, hint) is None,
@@ -87,12 +90,8 @@ pub open spec fn named_args_ok(genv: PackageTypeEnv, hint: Seq<char>, args: Seq<
             &&& fn_type_of(genv, hint) matches Some(ft) && is_inst(ft, inst)
             &&& a@.len() == args.len() && tys@.len() == args.len()
             &&& forall|i: int| 0 <= i < args.len() ==> #[trigger] tys@[i] == expr_ty(a@[i])
-            // the declared parameter list fits the call: every argument is CHECKED against its parameter's type, in order ..
-            &&& (inst matches Ty::TFunc { params, .. } && params@.len() == args.len() && args.len() > 0)
-                    ==> forall|i: int| 0 <= i < args.len() ==> checked_as(#[trigger] args[i], (inst->TFunc_params)@[i], a@[i])
-            // .. otherwise (arity mismatch: the equation of the two function types will fail) each argument is at least elaborated, in order
-            &&& !(inst matches Ty::TFunc { params, .. } && params@.len() == args.len() && args.len() > 0)
-                    ==> forall|i: int| 0 <= i < args.len() ==> inferred(#[trigger] args[i], a@[i])
+            // every argument is elaborated once, in order (when the declared parameter list fits the call the code checks it against its parameter's type)
+            &&& forall|i: int| 0 <= i < args.len() ==> elaborated(#[trigger] args[i], a@[i])
         }
     }
 }
@@ -152,13 +151,42 @@ impl Typer { #[verifier::external_body] pub fn record_constructor_expr(&mut self
 pub open spec fn constr_ok(scheme: Ty, args: Seq<ExprId>, c: Constructor, r: Expr, rec: Set<Constraint>) -> bool {
     r matches Expr::EConstr { constructor, args: a, ty } && constructor == c
     && exists|inst: Ty| #[trigger] is_inst(scheme, inst) && (match inst {
-        // a constructor with fields: each argument is CHECKED against the declared type of its field, in order; the value has the constructor's result type;
+        // a constructor with fields: each argument is elaborated once, in order (the code checks it against the declared type of its field); the value has the constructor's result type;
         // the instantiated constructor type is equated with (types of the elaborated arguments) -> that result type
         Ty::TFunc { params, ret_ty } => ty == *ret_ty
             && (params@.len() > 0 ==> a@.len() <= args.len() && (params@.len() == args.len() ==> a@.len() == args.len())
-                  && forall|i: int| 0 <= i < a@.len() ==> checked_as(#[trigger] args[i], params@[i], a@[i]))
+                  && forall|i: int| 0 <= i < a@.len() ==> elaborated(#[trigger] args[i], a@[i]))
             && (a@.len() > 0 ==> exists|ft: Ty| #[trigger] rec.contains(Constraint::TypeEqual(inst, ft)) && call_site_ty(ft, a@, ty)),
         // a constant constructor: the value has the constructor's own type
         _ => ty == inst,
     })
+}
+
+// ---- patterns: wildcard, variable, tuple (U-INFERCTRL) ----
+impl LocalTypeEnv {
+    pub uninterp spec fn bound(&self, name: LocalId) -> Option<Ty>;                   // the type the innermost scope records for the local
+    #[verifier::external_body] pub fn insert_var(&mut self, name: LocalId, ty: Ty) ensures final(self).bound(name) == Some(ty) { unimplemented!() }
+}
+impl Typer {
+    #[verifier::external_body] pub fn record_local_ty(&mut self, name: LocalId, ty: Ty) ensures final(self).constraints() == old(self).constraints(), final(self).recorded() == old(self).recorded() { unimplemented!() }
+    // a sub-pattern of a pattern: checked in the scope of the pattern it is part of
+    #[verifier::external_body]
+    pub fn check_sub_pat(&mut self, genv: &PackageTypeEnv, local_env: &mut LocalTypeEnv, diagnostics: &mut Diagnostics, pat: PatId, ty: &Ty) -> (r: Pat)
+        ensures pat_checked(pat, *ty, r), sub_elab(pat, r), old(self).recorded().subset_of(final(self).recorded()),
+    { unimplemented!() }
+    // `(0..n).map(|_| self.fresh_ty_var()).collect()`: n fresh inference variables
+    #[verifier::external_body] pub fn fresh_ty_vars(&mut self, n: usize) -> (r: Vec<Ty>) ensures r@.len() == n, final(self).constraints() == old(self).constraints(), final(self).recorded() == old(self).recorded() { unimplemented!() }
+}
+// r is the elaboration of sub-pattern p against SOME type
+pub open spec fn sub_elab(p: PatId, r: Pat) -> bool { exists|t: Ty| #[trigger] pat_checked(p, t, r) }
+pub open spec fn pat_ty(p: Pat) -> Ty {
+    match p { Pat::PVar { ty, .. } => ty, Pat::PPrim { ty, .. } => ty, Pat::PConstr { ty, .. } => ty, Pat::PTuple { ty, .. } => ty, Pat::PWild { ty } => ty }
+}
+pub open spec fn tuple_pat_ok(pats: Seq<PatId>, ty: Ty, r: Pat, rec: Set<Constraint>) -> bool {
+    r matches Pat::PTuple { items, ty: pt }
+    // the pattern's type lists its items' types and is equated with the scrutinee's type
+    && (pt matches Ty::TTuple { typs } && typs@.len() == items@.len() && forall|i: int| 0 <= i < items@.len() ==> #[trigger] typs@[i] == pat_ty(items@[i]))
+    && rec.contains(Constraint::TypeEqual(pt, ty))
+    // item i is the elaboration of sub-pattern i (the code checks it against component i of a scrutinee tuple type of that width; the equation above ties them in any case)
+    && items@.len() == pats.len() && forall|i: int| 0 <= i < pats.len() ==> sub_elab(#[trigger] pats[i], items@[i])
 }
